@@ -598,7 +598,7 @@ class Chain:
 # ------------------------------------------------------------------ scenarios
 def gen_case(rng, kind=None):
     """ops: list of (time_units, op, payload), sorted by time."""
-    kinds = ["plain", "self", "retry", "wait", "waitresp", "crash", "boundary", "zero", "yield", "startup", "burst", "latency"]
+    kinds = ["plain", "self", "retry", "retry2", "wait", "waitresp", "crash", "boundary", "zero", "yield", "startup", "burst", "latency"]
     kind = kind or rng.choice(kinds)
     tau = rng.choice([8, 16, 32, 64, 96])
     y = 0
@@ -636,6 +636,15 @@ def gen_case(rng, kind=None):
         ops.append((0, "policy", POLICY_delay / U))
         ops.append((t, "send", plain_ev(fail=True, dur=rng.choice([0, 4]) / U)))
         t += POLICY_delay + gap() + 2 * tau
+        ops.append((t, "send", plain_ev(fin=True)))
+    elif kind == "retry2":
+        # two failing inputs whose retries are pending at the same time with different remaining delays: when the
+        # first retry has fired and finished, the second one is still waiting for longer than the idle timeout
+        POLICY_delay = rng.choice([3 * tau, 4 * tau + 8])
+        ops.append((0, "policy", POLICY_delay / U))
+        ops.append((t, "send", plain_ev(fail=True, dur=0.0)))
+        ops.append((t + POLICY_delay // 2, "send", plain_ev(fail=True, dur=0.0)))
+        t += 3 * POLICY_delay + 4 * tau + 40
         ops.append((t, "send", plain_ev(fin=True)))
     elif kind == "wait":
         T = rng.choice([tau // 2 or 1, tau, tau + 8, 3 * tau])
@@ -1034,7 +1043,7 @@ def run_suite(ctx, n, props, with_reference=0.35):
     conform value, issues (restricted to `props`)."""
     import core
     rng = random.Random(ctx.seed * 7919 + 11)
-    kinds = ["plain", "self", "retry", "wait", "waitresp", "crash", "boundary", "zero", "yield", "startup", "burst", "latency"]
+    kinds = ["plain", "self", "retry", "retry2", "wait", "waitresp", "crash", "boundary", "zero", "yield", "startup", "burst", "latency"]
     out, exprs, total = [], [], {}
     corpus = corpus_cases()
     for k in range(len(corpus) + n):
